@@ -197,7 +197,6 @@ Definition read_from_buffer (s : state) : state * rres :=
   | m :: r => (set_q_buf s r, RRMsg m)
   | [] => match q_exc s with Some c => (s, RRExc c) | None => (s, RREof) end
   end.
-Definition can_read_now (s : state) : bool := negb (match q_buf s with [] => true | _ => false end) || q_eof s.
 
 (* ---- heartbeat ------------------------------------------------------------------------------- *)
 Definition not_flush (r : ritem) : bool := match r with RFlushHb => false | _ => true end.
@@ -255,31 +254,37 @@ Definition close_ret (s : state) (t : nat) (k : kont) (b : bool) : state :=
 Definition close_exc (c : config) (s : state) (t : nat) (k : kont) : state :=
   close_ret (abnormal c (set_has_exc s true)) t k true.
 
-(* the loop `msg = await reader.read()` until a CLOSE message; entered with the timeout deadline d.
-   Server: one deadline for the whole loop.  Client: a new asyncio.timeout() per iteration. *)
-Fixpoint close_read_loop (c : config) (fuel : nat) (s : state) (t : nat) (k : kont) (d : N) : state :=
-  match fuel with
-  | O => set_bad s true
-  | S fuel =>
-    if can_read_now s then
-      let '(s, r) := read_from_buffer s in
-      match r with
-      | RRMsg (MClose code) => close_ret (close_transport c (set_close_code s (Some code))) t k true
-      | RRMsg _ => close_read_loop c fuel s t k (match c_side c with Server => d | Client => now s + c_close_tmo c end)
-      | _ => close_exc c s t k
-      end
-    else
-      match q_waiter s with
-      | Some _ => close_exc c s t k          (* `assert not self._waiter` inside the try *)
-      | None => suspend (set_q_waiter s (Some t)) t (PCloseRead k) (Some d)
-      end
+(* the loop `msg = await reader.read()` until a CLOSE message; buf is the reader's buffer (recursion is on it);
+   entered with the timeout deadline d.  Server: one deadline for the whole loop.  Client: a new
+   asyncio.timeout() per iteration. *)
+Definition next_deadline (c : config) (s : state) (d : N) : N :=
+  match c_side c with Server => d | Client => now s + c_close_tmo c end.
+Fixpoint close_read_loop (c : config) (buf : list msg) (s : state) (t : nat) (k : kont) (d : N) : state :=
+  match buf with
+  | m :: rest =>
+    let s := set_q_buf s rest in
+    match m with
+    | MClose code => close_ret (close_transport c (set_close_code s (Some code))) t k true
+    | _ => close_read_loop c rest s t k (next_deadline c s d)
+    end
+  | [] =>
+    if q_eof s then close_exc c s t k        (* _read_from_buffer raises the stored exception / EofStream *)
+    else match q_waiter s with
+         | Some _ => close_exc c s t k       (* `assert not self._waiter` inside the try *)
+         | None => suspend (set_q_waiter s (Some t)) t (PCloseRead k) (Some d)
+         end
   end.
-Definition loop_fuel (s : state) : nat := S (S (length (q_buf s))).
+(* resumed after the waiter completed normally: `return self._read_from_buffer()` and on with the loop *)
+Definition close_read_resume (c : config) (s : state) (t : nat) (k : kont) (d : N) : state :=
+  match q_buf s with
+  | [] => close_exc c s t k
+  | _ => close_read_loop c (q_buf s) s t k d
+  end.
 
 (* server: after `await self._close_wait` (or directly when no receive() was blocked) *)
 Definition server_close_tail (c : config) (s : state) (t : nat) (k : kont) : state :=
   if closing s then close_ret (close_transport c s) t k true
-  else close_read_loop c (loop_fuel s) s t k (now s + c_close_tmo c).
+  else close_read_loop c (q_buf s) s t k (now s + c_close_tmo c).
 
 (* client: after the optional `await self._close_wait` *)
 Definition client_close_body (c : config) (s : state) (t : nat) (k : kont) (code : N) : state :=
@@ -291,7 +296,7 @@ Definition client_close_body (c : config) (s : state) (t : nat) (k : kont) (code
     else if truthy_code (close_code s) then
       let s := match k with KRecv _ true => set_code_defect s true | _ => s end in
       close_ret (close_transport c s) t k true
-    else close_read_loop c (loop_fuel s) s t k (now s + c_close_tmo c).
+    else close_read_loop c (q_buf s) s t k (now s + c_close_tmo c).
 
 Definition close_entry (c : config) (s : state) (t : nat) (k : kont) (code : N) : state :=
   match c_side c with
@@ -356,45 +361,45 @@ Definition recv_handle (c : config) (s : state) (t : nat) (r : rres) : lres :=
     end
   end.
 
-Fixpoint recv_loop (c : config) (fuel : nat) (s : state) (t : nat) : state :=
-  match fuel with
-  | O => set_bad s true
-  | S fuel =>
-    if waiting s then finish s t XRuntime
-    else if closed s then
-      match c_side c with
-      | Server =>
-        let s := set_lost_cnt s (lost_cnt s + 1) in
-        if connlost_threshold <=? lost_cnt s then finish s t XRuntime else finish s t (RMsg MClosed)
-      | Client => finish s t (RMsg MClosed)
+Definition stop_state (r : lres) : state := match r with Stop s => s | Cont s => s end.
+
+(* recursion on the reader's buffer: an iteration that `continue`s has consumed its first message *)
+Fixpoint recv_loop (c : config) (buf : list msg) (s : state) (t : nat) : state :=
+  if waiting s then finish s t XRuntime
+  else if closed s then
+    match c_side c with
+    | Server =>
+      let s := set_lost_cnt s (lost_cnt s + 1) in
+      if connlost_threshold <=? lost_cnt s then finish s t XRuntime else finish s t (RMsg MClosed)
+    | Client => finish s t (RMsg MClosed)
+    end
+  else if closing s then
+    match c_side c with
+    | Server => finish s t (RMsg MClosing)
+    | Client => close_entry c s t (KRecv MClosed false) ws_close_ok
+    end
+  else
+    let s := set_waiting s true in
+    match buf with
+    | m :: rest =>
+      match recv_handle c (recv_finally (set_q_buf s rest)) t (RRMsg m) with
+      | Stop s => s
+      | Cont s => recv_loop c rest s t
       end
-    else if closing s then
-      match c_side c with
-      | Server => finish s t (RMsg MClosing)
-      | Client => close_entry c s t (KRecv MClosed false) ws_close_ok
-      end
-    else
-      let s := set_waiting s true in
-      if can_read_now s then
-        let '(s, r) := read_from_buffer s in
-        match recv_handle c (recv_finally s) t r with
-        | Stop s => s
-        | Cont s => recv_loop c fuel s t
-        end
+    | [] =>
+      if q_eof s then
+        stop_state (recv_handle c (recv_finally s) t (match q_exc s with Some code => RRExc code | None => RREof end))
       else
         match q_waiter s with
         | Some _ =>     (* `assert not self._waiter` -> AssertionError -> `except Exception` *)
           let s := recv_finally s in
-          let s := match c_side c with
-                   | Server => set_close_code (mark_closing (set_has_exc s true)) (Some ws_close_abnormal)
-                   | Client => set_close_code (mark_closing (set_has_exc s true)) (Some ws_close_abnormal)
-                   end in
+          let s := set_close_code (mark_closing (set_has_exc s true)) (Some ws_close_abnormal) in
           close_entry c s t (KRecv MError false) ws_close_ok
         | None =>
           suspend (set_q_waiter s (Some t)) t PRecvWait
                   (match c_recv_tmo c with Some d => Some (now s + d) | None => None end)
         end
-  end.
+    end.
 
 (* ---- wake-up of a suspended task --------------------------------------------------------------- *)
 Definition was_cancelled (k : task) : bool :=
@@ -404,7 +409,7 @@ Definition is_timeout (k : task) : bool := t_expired k && negb (t_cancel k).
 
 Definition start_op (c : config) (s : state) (t : nat) (o : op) : state :=
   match o with
-  | OpRecv => recv_loop c (loop_fuel s) s t
+  | OpRecv => recv_loop c (q_buf s) s t
   | OpClose code => close_entry c s t KTop code
   | OpSend k =>
     let '(s, raised) := send_frame s (match k with SText => FText | SPing => FPing | SPong => FPong end) in
@@ -424,7 +429,7 @@ Definition run_wake (c : config) (s : state) (t : nat) : state :=
         else match fr with FExc code => (s, RRExc code) | _ => read_from_buffer s end in
       match recv_handle c (recv_finally s) t r with
       | Stop s => s
-      | Cont s => recv_loop c (loop_fuel s) s t
+      | Cont s => recv_loop c (q_buf s) s t
       end
     end
   | PCloseCW kk code =>
@@ -453,13 +458,7 @@ Definition run_wake (c : config) (s : state) (t : nat) : state :=
                       | Server, Some d => d
                       | _, _ => now s + c_close_tmo c
                       end in
-             (* re-enter the loop at `_read_from_buffer` *)
-             let '(s, r) := read_from_buffer s in
-             match r with
-             | RRMsg (MClose code) => close_ret (close_transport c (set_close_code s (Some code))) t kk true
-             | RRMsg _ => close_read_loop c (loop_fuel s) s t kk (match c_side c with Server => d | Client => now s + c_close_tmo c end)
-             | _ => close_exc c s t kk
-             end
+             close_read_resume c s t kk d
            end
     end
   | PIdle | PDone _ => s
